@@ -5,6 +5,17 @@ package, "pip" modules in a fake `site-packages` directory put on sys.path / PYT
 stdlib modules, rattr itself, unlocatable modules; import graphs with cycles, diamonds, several
 import forms; x follow level 0..3 x --exclude-import pattern sets.
 
+How the configuration reaches rattr is part of the case (`channel`): the follow level through every
+way a user can set it (-f N, --follow-imports N, --follow-imports=N, -fN, repeated flags, [tool.rattr]
+follow-imports = N in ./pyproject.toml, in a parent directory's pyproject.toml, in a -c / --config
+file, TOML overridden by the command line, nothing at all), the exclusion patterns through -F /
+--exclude-import / TOML exclude-imports / both, the TOML text in 9 spellings — run in-process through
+the REAL `parse_arguments` on real files, and (channel matrix, sample) through the real CLI.
+How a file gets a second module name / a search dir a second spelling is part of the case too
+(`extra_path` spellings, `links`): a sub-directory that is also a search dir (spelled really, through
+a symlink, `./x`, `x/../x`, `x/`), a symlinked directory or file inside a search dir, site-packages
+reached through a symlink. Analyses are counted per REAL file (os.path.realpath).
+
 Implementation side: the real `parse_and_analyse_file()` (+ `generate_results_from_ir`) in-process,
 with `FileAnalyser.analyse` wrapped to count analyses; a sample is re-run through the real CLI.
 Model side: Lean `Imports.bfs` on the module graph whose per-module facts (resolved name, origin,
@@ -33,10 +44,16 @@ import common
 import impl
 
 PID = "C12"
-TABLES = ["C12"]
+TABLES = ["C12", "C20"]
 
 STDLIB_LEAF = ["keyword", "colorsys", "token"]      # source files without imports (verified per run)
 STDLIB_OPAQUE = ["sys", "os", "math"]               # origin 'built-in' / 'frozen' / .so
+# how a generated file can get a SECOND module name (`names[n]["via"]`; one mechanism per project)
+ALIAS_VIAS = ["subdir-on-path:<spelling>",          # a sub-directory of a search dir is a search dir too
+              "symlink-inside-search-dir:dir",      # a symlinked directory below a search dir
+              "symlink-inside-search-dir:file"]     # a symlinked .py file below a search dir
+# how a search-path entry can be spelled (all denote the same directory)
+SPELLINGS = ["real", "real", "symlink", "symlink", "dot", "dotdot", "slash"]
 RATTR_FORMS = [("rattr", None), ("rattr.config", "Config"), ("rattr.analyser.util", "read")]
 MISSING = "zz_missing0"
 
@@ -69,7 +86,15 @@ class Gen:
         self.rng = rng
         self.files = {}      # (root, relpath) -> {"stmts": [..], "symbols": [..], "calls": [..], "tag":..}
         self.names = {}      # intended module name -> {"kind", "file": (root, relpath) | None}
-        self.extra_path = []  # project-relative dirs appended to the module search path
+        self.extra_path = []  # dirs appended to the module search path: "pk" | {"dir": "pk", "spell": how}
+        self.links = []      # symlinks: {"at": <root-relative path>, "to": <link text>}
+        self.no_rel = set()  # files in which no relative import may be written (reachable under a
+        #                      second PACKAGE name: rattr derives the package from the spelled path)
+        self.sp_spell = "real"
+
+    def add_link(self, at, to):
+        if not any(l["at"] == at for l in self.links):
+            self.links.append({"at": at, "to": to})
 
     def add_file(self, root, relpath, name, kind):
         key = (root, relpath)
@@ -77,8 +102,12 @@ class Gen:
             self.files[key] = {"stmts": [], "symbols": [], "calls": [], "ids": {"f_" + tag_of(name)}, "tag": tag_of(name)}
         self.names[name] = {"kind": kind, "file": key}
 
-    def add_name(self, name, kind, file=None):
+    def add_name(self, name, kind, file=None, via=None):
+        """A further name: of a module without generated file (stdlib, rattr, missing) or — `via` — a
+        SECOND name of a generated file (how: see ALIAS_VIAS)."""
         self.names[name] = {"kind": kind, "file": file}
+        if via:
+            self.names[name]["via"] = via
 
     def package_of(self, key):
         """Dotted package a file lives in (for relative imports), or None."""
@@ -101,7 +130,8 @@ class Gen:
             forms += ["from", "from", "from_as"]
         if parent and kind in ("local", "pip"):
             forms += ["from_pkg"]
-            if pkg == parent and info["file"][0] == src_key[0]:
+            if pkg == parent and info["file"][0] == src_key[0] and src_key not in self.no_rel \
+                    and not info.get("via"):
                 forms += ["rel_from_mod", "rel_from_pkg", "rel_from_mod"]
         if form is None or form not in forms:
             form = self.rng.choice(forms)
@@ -163,6 +193,37 @@ class Gen:
         if call and self.rng.random() < 0.85:
             f["calls"].append(call)
 
+    # -- one real file under two module names / one search dir under two spellings (ALIAS_VIAS)
+    def alias_subdir_on_path(self, spell="real", only=None):
+        """proj/pk is ALSO a search dir (spelled `spell`): pk/s0.py is `pk.s0` and `s0`."""
+        self.extra_path.append({"dir": "pk", "spell": spell})
+        if spell == "symlink":
+            self.add_link("via", ".")
+        for (root, rel) in list(self.files):
+            if root == "proj" and rel.startswith("pk/") and rel != "pk/__init__.py":
+                if only is None or rel[3:-3] in only:
+                    self.add_name(rel[3:-3], "local", (root, rel), via="subdir-on-path:" + spell)
+
+    def alias_symlinked_dir(self):
+        """proj/lnk -> pk (a symlinked directory INSIDE a search dir): pk/s0.py is `pk.s0` and `lnk.s0`."""
+        self.add_link("proj/lnk", "pk")
+        for (root, rel) in list(self.files):
+            if root == "proj" and rel.startswith("pk/"):
+                self.no_rel.add((root, rel))
+                name = "lnk" if rel == "pk/__init__.py" else "lnk." + rel[3:-3]
+                self.add_name(name, "local", (root, rel), via="symlink-inside-search-dir:dir")
+
+    def alias_symlinked_file(self, i=0):
+        """proj/al<i>.py -> lm<i>.py (a symlinked file inside a search dir)."""
+        self.add_link(f"proj/al{i}.py", f"lm{i}.py")
+        self.add_name(f"al{i}", "local", ("proj", f"lm{i}.py"), via="symlink-inside-search-dir:file")
+
+    def sp_through_symlink(self):
+        """site-packages is on the search path only as `vendor` -> sp/site-packages: the spelled
+        path does not contain 'site-packages', the real one does."""
+        self.sp_spell = "symlink"
+        self.add_link("vendor", "sp/site-packages")
+
     def source(self, key):
         f = self.files[key]
         body = "".join(f"    {c}\n" for c in f["calls"])
@@ -173,9 +234,12 @@ class Gen:
             "level": level,
             "patterns": patterns,
             "extra_path": self.extra_path,
+            "links": self.links,
+            "sp_spell": self.sp_spell,
             "files": {f"{root}/{rel}": self.source((root, rel)) for (root, rel) in self.files},
             "symbols": {f"{root}/{rel}": f["symbols"] for (root, rel), f in self.files.items()},
-            "names": {n: {"kind": i["kind"], "file": (f"{i['file'][0]}/{i['file'][1]}" if i["file"] else None)}
+            "names": {n: dict({"kind": i["kind"], "file": (f"{i['file'][0]}/{i['file'][1]}" if i["file"] else None)},
+                              **({"via": i["via"]} if i.get("via") else {}))
                       for n, i in self.names.items()},
         }
 
@@ -203,10 +267,17 @@ def random_case(rng):
         g.add_file("proj", "pk/__init__.py", "pk", "local")
         for s in ("s0", "s1")[: rng.randint(1, 2)]:
             g.add_file("proj", f"pk/{s}.py", f"pk.{s}", "local")
-        if rng.random() < 0.25:
-            two_names = True
-            g.extra_path.append("pk")
-            g.add_name("s0", "local", ("proj", "pk/s0.py"))
+        r = rng.random()
+        if r < 0.3:
+            # one alias mechanism per project (the signature of a double analysis names it)
+            two_names = "subdir-on-path"
+            g.alias_subdir_on_path(rng.choice(SPELLINGS))
+        elif r < 0.42:
+            two_names = "symlinked-dir"
+            g.alias_symlinked_dir()
+    if not two_names and rng.random() < 0.1:
+        two_names = "symlinked-file"
+        g.alias_symlinked_file(0)
     if rng.random() < 0.6:
         g.add_file("sp", "pq0/__init__.py", "pq0", "pip")
         if rng.random() < 0.5:
@@ -225,6 +296,8 @@ def random_case(rng):
         g.add_file("sp", "nsq/inner/mod.py", "nsq.inner.mod", "pip")
         if rng.random() < 0.4:
             g.add_file("sp", "nsq/flat.py", "nsq.flat", "pip")
+    if any(i["kind"] == "pip" for i in g.names.values()) and rng.random() < 0.2:
+        g.sp_through_symlink()
     if rng.random() < 0.3:
         # local nested package whose top-level name is shared with nothing else
         g.add_file("proj", "lp/__init__.py", "lp", "local")
@@ -309,6 +382,61 @@ def corpus_cases():
             yield c
 
 
+def alias_cases():
+    """One real file reachable under two module names / one search dir under two spellings: every
+    mechanism x where the second name is imported (by the target itself / by a followed import — the
+    second name is then only used in a function the target calls). Plus site-packages reached through
+    a symlink whose spelling does not contain 'site-packages' (levels 1, 2)."""
+    layouts = [("subdir-on-path", sp) for sp in ("real", "symlink", "dot", "dotdot", "slash")] + \
+              [("symlinked-dir", None), ("symlinked-file", None)]
+    for kind, spell in layouts:
+        for where in ("target", "followed-import"):
+            g = Gen(random.Random(0))
+            g.add_file("proj", "target.py", "target", "local")
+            g.add_file("proj", "lm0.py", "lm0", "local")
+            g.add_file("proj", "lm1.py", "lm1", "local")
+            g.add_file("proj", "pk/__init__.py", "pk", "local")
+            g.add_file("proj", "pk/s0.py", "pk.s0", "local")
+            if kind == "subdir-on-path":
+                g.alias_subdir_on_path(spell)
+                first, second, call2 = "pk.s0", "s0", "s0.f_pk_s0(x)"
+            elif kind == "symlinked-dir":
+                g.alias_symlinked_dir()
+                first, second, call2 = "pk.s0", "lnk.s0", "lnk.s0.f_pk_s0(x)"
+            else:
+                g.alias_symlinked_file(1)
+                first, second, call2 = "lm1", "al1", "al1.f_lm1(x)"
+            t = ("proj", "target.py")
+            g.add_import(t, first, form="from")
+            g.add_import(t, "lm0", form="from")
+            holder = t if where == "target" else ("proj", "lm0.py")
+            g.add_import(holder, second, form="import")
+            g.files[("proj", "lm0.py")]["calls"] = []
+            g.files[t]["calls"] = [f"f_{tag_of(first)}(x)", "f_lm0(x)"]
+            g.files[holder]["calls"] = g.files[holder]["calls"] + [call2]
+            c = g.case(1, [])
+            c["shape"] = {"two_names": kind, "missing": False, "corpus": f"alias:{kind}:{spell}:{where}",
+                          "cli": where == "target" or spell == "symlink"}
+            yield c
+    for lvl in (1, 2):
+        g = Gen(random.Random(0))
+        g.add_file("proj", "target.py", "target", "local")
+        g.add_file("proj", "lm0.py", "lm0", "local")
+        g.add_file("sp", "pq1.py", "pq1", "pip")
+        g.add_file("sp", "pq0/__init__.py", "pq0", "pip")
+        g.add_file("sp", "pq0/u0.py", "pq0.u0", "pip")
+        g.sp_through_symlink()
+        t = ("proj", "target.py")
+        g.add_import(t, "pq1", form="import")
+        g.add_import(t, "lm0", form="from")
+        g.add_import(("proj", "lm0.py"), "pq0.u0", form="from")
+        g.files[t]["calls"] = ["pq1.f_pq1(x)", "f_lm0(x)"]
+        g.files[("proj", "lm0.py")]["calls"] = ["f_pq0_u0(x)"]
+        c = g.case(lvl, [])
+        c["shape"] = {"two_names": False, "missing": False, "corpus": f"site-packages-through-symlink-f{lvl}"}
+        yield c
+
+
 def enumerated_cases(nodes):
     """Every import graph over the fixed nodes (target + locals + one pip module), one import form,
     x levels x 3 pattern sets."""
@@ -336,6 +464,185 @@ def enumerated_cases(nodes):
                 yield c
 
 
+# ------------------------------------------------------------------ how the configuration reaches rattr
+
+# every way a user can set the follow level (the option table has ONE option with dest
+# `_follow_imports_level`: flags -f / --follow-imports — Tie A `tieA_follow_option`; there are no
+# legacy flags in this version) and the exclusion patterns.
+LEVEL_CHANNELS = ["direct",                     # Arguments(...) built by the harness (no parsing at all)
+                  "cli:-f", "cli:--follow-imports", "cli:--follow-imports=", "cli:-fN", "cli:last-wins",
+                  "toml:pyproject",             # ./pyproject.toml [tool.rattr] follow-imports = N
+                  "toml:parent-dir",            # ../pyproject.toml (the project root is a parent of the cwd)
+                  "toml:-c", "toml:--config",   # -c FILE overrides ./pyproject.toml (which says M != N)
+                  "toml:-c-missing-file",       # -c names no file: ./pyproject.toml applies
+                  "toml+cli",                   # ./pyproject.toml says M, the command line says N
+                  "default"]                    # nothing anywhere: level 1
+PATTERN_CHANNELS = ["cli:-F", "cli:--exclude-import", "toml", "split"]
+TOML_SPELLINGS = ["plain", "quoted-key", "dotted-table", "inline-table", "nospace", "plus", "hex", "oct", "bin"]
+NONCANONICAL = ("cli:--follow-imports=", "cli:-fN")     # argparse tokeniser: outside the Lean CLI model
+
+
+def toml_value(v, radix=None):
+    if isinstance(v, bool):
+        return "true" if v else "false"
+    if isinstance(v, int):
+        return {"plus": f"+{v}", "hex": f"0x{v:x}", "oct": f"0o{v:o}", "bin": f"0b{v:b}"}.get(radix, str(v))
+    if isinstance(v, str):
+        assert "'" not in v
+        return "'" + v + "'"
+    return "[" + ", ".join(toml_value(x) for x in v) + "]"
+
+
+def toml_text(entries, spelling):
+    """The text of a TOML file whose [tool.rattr] table has these entries, in one of the spellings."""
+    radix = spelling if spelling in ("plus", "hex", "oct", "bin") else None
+    kv = [(k, toml_value(v, radix)) for k, v in entries]
+    if spelling == "inline-table":
+        return "tool.rattr = { " + ", ".join(f"{k} = {v}" for k, v in kv) + " }\n"
+    if spelling == "dotted-table":
+        return "[tool]\n" + "".join(f"rattr.{k} = {v}\n" for k, v in kv) + ("rattr = {}\n" if not kv else "")
+    if spelling == "quoted-key":
+        return "[tool.rattr]\n" + "".join(f'"{k}" = {v}\n' for k, v in kv)
+    if spelling == "nospace":
+        return "[tool.rattr]\n" + "".join(f"{k}={v}\n" for k, v in kv)
+    return "[project]\nname = 'x'\n\n[tool.rattr]\n" + "".join(f"{k} = {v}\n" for k, v in kv)
+
+
+def toml_model(entries):
+    """The same table as the Lean CLI model reads it (RattrDriver/C20 `parseToml`)."""
+    def sc(v):
+        if isinstance(v, bool):
+            return {"b": v}
+        if isinstance(v, int):
+            return {"i": v}
+        return {"s": v}
+    return [[k, ({"l": [sc(x) for x in v]} if isinstance(v, list) else sc(v))] for k, v in entries]
+
+
+def deliver(level, patterns, ch):
+    """argv (without the target), configuration files (root-relative) and the Lean CLI model's view
+    of them, for delivering (level, patterns) through channel `ch`."""
+    via, pvia, other = ch["level_via"], ch.get("patterns_via", "cli:-F"), ch.get("other_level", 0)
+    spelling, decor = ch.get("toml_spelling", "plain"), ch.get("decor", 0)
+    argv, sel, unsel = [], [], None      # sel: entries of the TOML file that must apply; unsel: of the overridden one
+    k = len(patterns)
+    toml_pats = patterns if pvia == "toml" else (patterns[: (k + 1) // 2] if pvia == "split" else [])
+    cli_pats = patterns[len(toml_pats):]
+    if via in ("toml:pyproject", "toml:parent-dir", "toml:-c", "toml:--config", "toml:-c-missing-file"):
+        sel.append(("follow-imports", level))
+    elif via == "toml+cli":
+        sel.append(("follow-imports", other))
+    if toml_pats:
+        sel.append(("exclude-imports", list(toml_pats)))
+    # falsy / unknown entries around (they must contribute nothing)
+    before = [[], [("strict", False)], [("threshold", 0), ("exclude-imports", [])] if not toml_pats else [("exclude", [])],
+              [("not-an-option", 5), ("collapse-home", False)]][decor % 4]
+    if sel or decor:
+        sel = before + sel + ([("truncate-deep-paths", False)] if decor >= 4 else [])
+    if via == "cli:-f":
+        argv += ["-f", str(level)]
+    elif via == "cli:--follow-imports":
+        argv += ["--follow-imports", str(level)]
+    elif via == "cli:--follow-imports=":
+        argv += [f"--follow-imports={level}"]
+    elif via == "cli:-fN":
+        argv += [f"-f{level}"]
+    elif via == "cli:last-wins":
+        argv += ["-f", str(other), "--follow-imports", str(level)]
+    elif via == "toml+cli":
+        argv += ["-f", str(level)]
+    for p in cli_pats:
+        argv += ["--exclude-import" if pvia == "cli:--exclude-import" else "-F", p]
+    aux, world = {}, {"cwd": {"vcs": False, "pyproject": None}, "parents": [{"vcs": False, "pyproject": None}],
+                      "override": None}
+    if via in ("toml:-c", "toml:--config"):
+        unsel = [("follow-imports", other)]
+        aux["proj/conf/alt.toml"] = toml_text(sel, spelling)
+        aux["proj/pyproject.toml"] = toml_text(unsel, "plain")
+        argv = ["-c" if via == "toml:-c" else "--config", "conf/alt.toml"] + argv
+        world["override"], world["cwd"]["pyproject"] = toml_model(sel), toml_model(unsel)
+    elif via == "toml:parent-dir":
+        aux["pyproject.toml"] = toml_text(sel, spelling)
+        world["parents"][0]["pyproject"] = toml_model(sel)
+    elif sel:
+        aux["proj/pyproject.toml"] = toml_text(sel, spelling)
+        world["cwd"]["pyproject"] = toml_model(sel)
+        if via == "toml:-c-missing-file":
+            argv = ["-c", "conf/nope.toml"] + argv
+    says = {"cli": ([other, level] if via == "cli:last-wins" else [level] if via.startswith("cli:") or via == "toml+cli" else []),
+            "toml": next((v for k_, v in sel if k_ == "follow-imports"), None),
+            "toml_patterns": list(toml_pats), "cli_patterns": list(cli_pats)}
+    model = None if via in NONCANONICAL else {"world": world, "argv": argv + ["target.py"], "says": says}
+    # self-check with an independent reading of the files written (tomllib; dict semantics)
+    import tomllib
+    for rel, text in aux.items():
+        want = dict(unsel) if (unsel is not None and rel == "proj/pyproject.toml") else dict(sel)
+        got = tomllib.loads(text).get("tool", {}).get("rattr", {})
+        assert got == want, (rel, text, want)
+    return {"argv": argv, "aux_files": aux, "model": model,
+            "selected": [[k_, v_] for k_, v_ in sel], "toml_spelling": spelling}
+
+
+def set_channel(case, ch):
+    """Attach the delivery of (case.level, case.patterns) through `ch` to the case."""
+    if ch["level_via"] == "default" and case["level"] != 1:
+        ch = dict(ch, level_via="cli:-f")
+    if ch["level_via"] == "direct":
+        case["channel"] = {"level_via": "direct"}
+        return case
+    ch = dict(ch)
+    ch["other_level"] = (case["level"] + 1 + ch.get("other_level", 0) % 3) % 4     # always != level
+    d = deliver(case["level"], case["patterns"], ch)
+    case["channel"] = ch
+    case["argv"], case["aux_files"], case["cli_model"] = d["argv"], d["aux_files"], d["model"]
+    case["toml_selected"] = d["selected"]
+    return case
+
+
+def random_channel(rng):
+    via = rng.choice(["direct", "direct"] + LEVEL_CHANNELS[1:] + ["toml:pyproject", "toml:parent-dir", "toml:-c"])
+    return {"level_via": via, "patterns_via": rng.choice(PATTERN_CHANNELS), "toml_spelling": rng.choice(TOML_SPELLINGS),
+            "other_level": rng.randint(0, 2), "decor": rng.randint(0, 7)}
+
+
+def channel_cases():
+    """The follow level through EVERY channel x level 0..3 on one project that has a module of every
+    class behind a chain of imports (target -> lm0 -> lm1 -> pq1 -> keyword, target -> pq1, keyword);
+    the exclusion patterns through every pattern channel."""
+    n = 0
+    for via in LEVEL_CHANNELS[1:]:
+        for level in range(4):
+            if via == "default" and level != 1:
+                continue
+            g = Gen(random.Random(0))
+            g.add_file("proj", "target.py", "target", "local")
+            g.add_file("proj", "lm0.py", "lm0", "local")
+            g.add_file("proj", "lm1.py", "lm1", "local")
+            g.add_file("sp", "pq1.py", "pq1", "pip")
+            g.add_name("keyword", "stdlib")
+            g.add_import(("proj", "target.py"), "lm0", form="from")
+            g.add_import(("proj", "target.py"), "pq1", form="import")
+            g.add_import(("proj", "target.py"), "keyword", form="import")
+            g.add_import(("proj", "lm0.py"), "lm1", form="import")
+            g.add_import(("proj", "lm1.py"), "pq1", form="from")
+            g.add_import(("sp", "pq1.py"), "keyword", form="import")
+            g.files[("proj", "target.py")]["calls"] = ["f_lm0(x)", "pq1.f_pq1(x)"]
+            g.files[("proj", "lm0.py")]["calls"] = ["lm1.f_lm1(x)"]
+            g.files[("proj", "lm1.py")]["calls"] = ["f_pq1(x)"]
+            n += 1
+            pats = [[], ["lm1"], ["lm1", "pq.*"], ["nomatch_.*", "pq1", "lm1"]][n % 4]
+            c = g.case(level, pats)
+            # through the real CLI as well: every level for the primary channels, level 0 and one other
+            # level for the variants (all of them run in-process through the real parse_arguments)
+            primary = via in ("cli:-f", "cli:--follow-imports", "toml:pyproject", "toml:parent-dir", "toml:-c",
+                              "toml+cli", "default")
+            c["shape"] = {"two_names": False, "missing": False, "channel-matrix": True,
+                          "cli": primary or level in (0, 1 + n % 3)}
+            yield set_channel(c, {"level_via": via, "patterns_via": PATTERN_CHANNELS[(n // 4) % 4],
+                                  "toml_spelling": TOML_SPELLINGS[n % len(TOML_SPELLINGS)], "other_level": n % 3,
+                                  "decor": n % 8})
+
+
 # ------------------------------------------------------------------ project on disk
 
 class Project:
@@ -350,20 +657,82 @@ class Project:
             p = self.path_of(rel)
             p.parent.mkdir(parents=True, exist_ok=True)
             p.write_text(src)
+        for rel, src in case.get("aux_files", {}).items():     # configuration files, root-relative
+            p = self.root / rel
+            p.parent.mkdir(parents=True, exist_ok=True)
+            p.write_text(src)
+        for l in case.get("links", []):
+            os.symlink(l["to"], self.root / l["at"])
 
     def path_of(self, rel):
         root, _, r = rel.partition("/")
         return (self.proj if root == "proj" else self.sp) / r
 
+    def spell(self, d: Path, how):
+        """One of the spellings of the (real, absolute) directory `d`."""
+        if how == "real":
+            return str(d)
+        if how == "symlink":        # through <root>/via -> .
+            return str(self.root / "via" / d.relative_to(self.root))
+        if how == "dot":            # relative to the working directory (= proj)
+            return "./" + str(d.relative_to(self.proj))
+        if how == "dotdot":
+            return str(d) + "/../" + d.name
+        if how == "slash":
+            return str(d) + "/"
+        raise ValueError(how)
+
     @property
     def search_path(self):
-        return [str(self.sp)] + [str(self.proj / e) for e in self.case["extra_path"]]
+        sp = str(self.sp) if self.case.get("sp_spell", "real") == "real" else str(self.root / "vendor")
+        out = [sp]
+        for e in self.case["extra_path"]:
+            if isinstance(e, str):
+                out.append(str(self.proj / e))
+            else:
+                out.append(self.spell(self.proj / e["dir"], e["spell"]))
+        return out
+
+    def real_rel(self, path):
+        """Root-relative REAL path of a file rattr names (independent of how rattr spelled it)."""
+        p = str(path)
+        if not os.path.isabs(p):
+            p = os.path.join(str(self.proj), p)
+        r = os.path.realpath(p)
+        return os.path.relpath(r, str(self.root)) if r.startswith(str(self.root) + os.sep) else r
 
     def cleanup(self):
         shutil.rmtree(self.root, ignore_errors=True)
 
 
 # ------------------------------------------------------------------ implementation side (in-process)
+
+def make_config(pr: Project):
+    """Create the Config singleton for the case: directly from `Arguments(...)` (channel `direct`), or
+    by the REAL `parse_arguments` on the case's argv with the case's TOML files on disk (cwd = proj).
+    Returns None, or a description of why rattr rejected the configuration."""
+    from rattr.config import Config, State
+    from rattr.config._types import ConfigMetaclass
+    case = pr.case
+    if case.get("channel", {"level_via": "direct"})["level_via"] == "direct":
+        impl.reset_config(_follow_imports_level=case["level"], _excluded_imports=list(case["patterns"]),
+                          target=Path("target.py"))
+        return None
+    from rattr.cli import parse_arguments
+    ConfigMetaclass._instance = None
+    Config._instance = None
+    import contextlib
+    import io
+    err = io.StringIO()
+    with contextlib.redirect_stderr(err), contextlib.redirect_stdout(io.StringIO()):
+        out = impl.outcome_of(parse_arguments, sys_args=list(case["argv"]) + ["target.py"])
+    if out[0] != "ok":
+        return {"outcome": out[0], "detail": [str(x) for x in out[1:]], "stderr": err.getvalue()[-300:]}
+    with mock.patch("rattr.config._types.validate_arguments", lambda a: a):
+        Config(arguments=out[1], state=State())
+    impl.clear_caches_fast()
+    return None
+
 
 def run_impl(pr: Project):
     """The real pipeline on the project; returns observation dict."""
@@ -392,8 +761,12 @@ def run_impl(pr: Project):
     try:
         with impl.in_dir(str(pr.proj)):
             sys.path[1:1] = pr.search_path
-            impl.reset_config(_follow_imports_level=case["level"], _excluded_imports=list(case["patterns"]),
-                              target=Path("target.py"))
+            cfg_out = make_config(pr)
+            if cfg_out is not None:
+                obs.update({"outcome": "config-rejected", "config_detail": cfg_out, "events": [], "events_real": [],
+                            "queue0": [], "facts": {"modules": [], "target": [], "outside": []},
+                            "flags": {"truthy": False, "loc": False, "pip": False, "stdlib": False}})
+                return obs
             with impl.Tap() as tap, mock.patch.object(F.FileAnalyser, "analyse", counting), \
                     mock.patch.object(F, "parse_and_analyse_imports", tapped):
                 out = impl.outcome_of(F.parse_and_analyse_file)
@@ -414,12 +787,16 @@ def run_impl(pr: Project):
                         obs["results"] = f"{rout[0]}:{rout[1]}" + (f":{rout[2]}" if len(rout) > 2 else "")
             obs["events"] = [os.path.relpath(e, str(pr.root)) if os.path.isabs(e) and e.startswith(str(pr.root))
                              else e for e in events]
+            # the REAL file each analysis read (os.path.realpath: independent of rattr's spelling)
+            obs["events_real"] = [pr.real_rel(e) for e in events]
             obs["queue0"] = queue0
             obs["unresolved_msgs"] = sum(1 for e in tap.events[:n_events_bfs]
                                          if e["message"].startswith("unable to resolve import"))
             a = Config().arguments
             obs["flags"] = {"truthy": bool(a.follow_imports), "loc": a.follow_local_imports,
                             "pip": a.follow_pip_imports, "stdlib": a.follow_stdlib_imports}
+            obs["impl_level"] = a._follow_imports_level
+            obs["impl_patterns"] = list(a._excluded_imports or [])
             obs["facts"] = real_facts(pr)
     finally:
         sys.path[:] = saved_path
@@ -434,7 +811,7 @@ def real_facts(pr: Project):
     case = pr.case
     by_origin = {}
     for rel, syms in case["symbols"].items():
-        by_origin[str(pr.path_of(rel))] = syms
+        by_origin[os.path.realpath(str(pr.path_of(rel)))] = syms
 
     def imp_fact(sym):
         name, _ = find_module_name_and_spec(sym["qualified"])
@@ -457,13 +834,14 @@ def real_facts(pr: Project):
                 readable = True
             except Exception:
                 tree = None
-            if origin in by_origin:
-                syms = by_origin[origin]
+            if os.path.realpath(origin) in by_origin:
+                syms = by_origin[os.path.realpath(origin)]
             elif tree is not None and not n.startswith("rattr"):
                 # a real stdlib leaf: must have no imports, else the graph cannot be closed here
                 if any(isinstance(x, (ast.Import, ast.ImportFrom)) for x in ast.walk(tree)):
                     outside.append(n)
         m = {"name": n, "origin": origin, "readable": readable,
+             "real": (os.path.realpath(origin) if origin is not None and os.path.isabs(origin) else origin),
              "blacklisted": bool(is_in_import_blacklist(n)), "inPip": bool(is_in_pip(n)),
              "inStdlib": bool(is_in_stdlib(n)), "excluded": excluded_indep(n, case["patterns"]),
              "imports": [imp_fact(s) for s in syms]}
@@ -533,6 +911,17 @@ def shape_of(case, name):
     return "package" if parts[-1] == "__init__.py" else "top-level-module"
 
 
+def alias_kind(case, rel):
+    """By construction: how the file `rel` got a second module name (one mechanism per project)."""
+    vias = sorted({i["via"] for i in case["names"].values() if i.get("file") == rel and i.get("via")})
+    if not vias:
+        # legacy cases: a second name without a recorded mechanism = a sub-directory on the path
+        n = sum(1 for i in case["names"].values() if i.get("file") == rel)
+        return "subdir-on-path:real" if n > 1 else None
+    v = vias[0]
+    return "symlink-inside-search-dir" if v.startswith("symlink-inside-search-dir") else v
+
+
 def misclassification(case, obs, name):
     """Ground-truth class (where the generator put the file / sys.stdlib_module_names) vs the
     verdicts of the real is_in_pip / is_in_stdlib for this name; None when they agree."""
@@ -593,13 +982,18 @@ def judge(case, obs):
         else:
             sig = f"permitted-{kind_indep(case, n)}-module-not-analysed"
         out.append({"signature": sig, "module": n})
-    # each once: analysis events per file (the target file once more as the target itself)
-    ev = obs["events"]
-    if not ev or ev[-1] != "target.py":
+    # each once: analyses per REAL file (the target file once more as the target itself). A file is
+    # identified by os.path.realpath of what rattr opened, never by rattr's spelling of the path.
+    ev = obs.get("events_real", obs["events"])
+    if not ev or ev[-1] != "proj/target.py":
         out.append({"signature": "other:target-not-analysed-last", "events": ev})
     imp_ev = ev[:-1]
-    if len(set(imp_ev)) != len(imp_ev):
-        out.append({"signature": "file-analysed-more-than-once", "events": ev})
+    for e in sorted({e for e in imp_ev if imp_ev.count(e) > 1}):
+        rel = e.replace("sp/site-packages/", "sp/", 1)
+        ak = alias_kind(case, rel)
+        out.append({"signature": "file-analysed-more-than-once" + (":" + ak if ak else ""), "file": rel,
+                    "times": imp_ev.count(e), "events": obs["events"],
+                    "names": sorted(n for n, i in case["names"].items() if i["file"] == rel)})
     files_want0 = {file_of(case, n) for n in want}
     for e in imp_ev:
         rel = e.replace("sp/site-packages/", "sp/", 1)
@@ -644,9 +1038,13 @@ def tag_of_file(case, rel):
 
 def run_cli(pr: Project):
     case = pr.case
-    cmd = [sys.executable, "-m", "rattr", "-f", str(case["level"])]
-    for p in case["patterns"]:
-        cmd += ["-F", p]
+    cmd = [sys.executable, "-m", "rattr"]
+    if case.get("channel", {"level_via": "direct"})["level_via"] == "direct":
+        cmd += ["-f", str(case["level"])]
+        for p in case["patterns"]:
+            cmd += ["-F", p]
+    else:
+        cmd += list(case["argv"])
     cmd += ["-o", "ir", "target.py"]
     env = dict(os.environ)
     env["PYTHONPATH"] = os.pathsep.join(pr.search_path + ([env["PYTHONPATH"]] if env.get("PYTHONPATH") else []))
@@ -676,8 +1074,11 @@ def run_cli(pr: Project):
 def model_payload(case, obs):
     f = obs["facts"]
     fl = obs["flags"]
-    return {"level": case["level"], "flags": {"loc": fl["loc"], "pip": fl["pip"], "stdlib": fl["stdlib"]},
-            "modules": f["modules"], "target": f["target"]}
+    p = {"level": case["level"], "flags": {"loc": fl["loc"], "pip": fl["pip"], "stdlib": fl["stdlib"]},
+         "modules": f["modules"], "target": f["target"]}
+    if case.get("cli_model"):
+        p["config"] = case["cli_model"]
+    return p
 
 
 def graph_shape(facts):
@@ -708,12 +1109,36 @@ def graph_shape(facts):
     return cyc, any(v >= 2 for v in indeg.values())
 
 
+CASE_KEYS = ("level", "patterns", "extra_path", "links", "sp_spell", "files", "symbols", "names", "channel", "argv",
+             "aux_files", "cli_model", "toml_selected")
+
+
 def evaluate(res, case, obs, mo, cli=None):
     """Correspondence, self-checks and the property oracle for one case."""
-    shown = {k: case[k] for k in ("level", "patterns", "extra_path", "files", "symbols", "names")}
+    shown = {k: case[k] for k in CASE_KEYS if k in case}
     lvl = case["level"]
     res.count(f"level:{lvl}")
     res.count("patterns:" + ("none" if not case["patterns"] else "some"))
+    ch = case.get("channel", {"level_via": "direct"})
+    via = ch["level_via"]
+    res.count("channel:level:" + via)
+    res.count(f"channel:level:{via}:f{lvl}")
+    if via != "direct":
+        if case["patterns"]:
+            res.count("channel:patterns:" + ch.get("patterns_via", "?"))
+        if case.get("aux_files"):
+            res.count("channel:toml-spelling:" + ch.get("toml_spelling", "plain"))
+    for e in case["extra_path"]:
+        res.count("layout:subdir-on-path:" + (e["spell"] if isinstance(e, dict) else "real"))
+    for l in case.get("links", []):
+        res.count("layout:symlink:" + ("via-root" if l["at"] == "via" else "site-packages" if l["at"] == "vendor"
+                                       else "file-in-search-dir" if l["at"].endswith(".py") else "dir-in-search-dir"))
+    if obs["outcome"] == "config-rejected":
+        # rattr refused a configuration every documented rule accepts: nothing was analysed at all
+        res.count("impl-outcome:config-rejected")
+        res.violations.append({"signature": f"other:valid-configuration-rejected:{via}", "case": shown,
+                               "detail": obs.get("config_detail")})
+        return
     facts = obs["facts"]
     if facts["outside"]:
         res.skipped_outside_fragment += 1
@@ -741,7 +1166,7 @@ def evaluate(res, case, obs, mo, cli=None):
     res.count("model-outcome:" + mo["outcome"])
     res.count("impl-outcome:" + obs["outcome"] + ("" if obs.get("results", "ok") == "ok" else "+results-" + obs["results"].split(":")[1]))
     for h, v in mo["hyps"].items():
-        if not v:
+        if v is False:
             res.count("hyp-false:" + h)
 
     # --- self-checks (internal errors)
@@ -777,6 +1202,35 @@ def evaluate(res, case, obs, mo, cli=None):
                                         "case": shown})
             return
         res.count("theorem-instance:C12_partial")
+    if hy.get("originsCanonical") is not None:
+        if hy["originsCanonical"] and not mo["realNodup"]:
+            res.internal_errors.append({"what": "theorem C12_once_real contradicted by the driver", "model": mo,
+                                        "case": shown})
+            return
+        if hy["originsCanonical"]:
+            res.count("theorem-instance:C12_once_real")
+    # --- configuration stage: the Lean model of parse_arguments + Arguments.follow_imports on the
+    # case's (TOML files, argv) vs what the real parse_arguments produced
+    cm = mo.get("config")
+    if cm is not None:
+        res.count("cli-model:" + cm["outcome"])
+        im_cfg = {"outcome": "ok", "level": obs["impl_level"], "patterns": obs["impl_patterns"],
+                  "flags": {k: fl[k] for k in ("loc", "pip", "stdlib")}}
+        mm_cfg = {k: cm.get(k) for k in ("outcome", "level", "patterns", "flags")}
+        if im_cfg != mm_cfg:
+            res.disagreements.append({"stage": "configuration", "case": shown, "impl": im_cfg, "model": mm_cfg})
+        if cm.get("level") == lvl and cm.get("patterns") == list(case["patterns"]):
+            res.count("cli-model:level-and-patterns-as-intended")
+        else:
+            res.count("cli-model:DIFFERS-from-intended")
+        if cm.get("theoremLevel") is not None:
+            if cm["theoremLevel"] != cm.get("level"):
+                res.internal_errors.append({"what": "theorem C12_configured_level contradicted by the driver",
+                                            "config": cm, "case": shown})
+                return
+            res.count("theorem-instance:C12_configured_level")
+    elif via in NONCANONICAL:
+        res.count("cli-model:outside-fragment(argparse tokeniser)")
     if cli is not None:
         a = obs["outcome"]
         if a == "ok" and obs.get("results", "ok") != "ok":
@@ -849,10 +1303,17 @@ def run(tier, seed, build):
                 "{target, lm0, pq1} (quick) / {target, lm0, lm1, pq1} (thorough) and over {target, lm0, nsq.inner.mod "
                 "(pip, in a namespace package)} x 4 levels x 3 pattern sets. The oracle's module classes are fixed "
                 "by construction (where the generator put the file), never taken from rattr's classifiers. "
+                "Each random case is delivered through a random configuration channel (13 ways of setting the level x 4 "
+                "ways of giving the patterns x 9 TOML spellings, through the real parse_arguments on real files); a "
+                "channel matrix (every channel x level 0..3 on a project with a local chain, a pip and a stdlib module) "
+                "runs in-process and through the real CLI. Alias layouts: a sub-directory also on the search path in 5 "
+                "spellings (real, through a symlink, ./x, x/../x, x/), a symlinked directory / file inside a search dir, "
+                "site-packages behind a symlink; second name imported by the target or by a followed import; analyses "
+                "counted per real file (os.path.realpath). "
                 "non-trivial = distinct case whose target imports at least one locatable module")
     rng = random.Random(seed)
     n_random, n_cli = (400, 16) if tier == "quick" else (800, 30)
-    cases = list(corpus_cases())
+    cases = list(corpus_cases()) + list(alias_cases()) + list(channel_cases())
     N_CORPUS = len(cases)
     if tier == "quick":
         cases += list(enumerated_cases(["target", "lm0", "pq1"]))
@@ -863,32 +1324,47 @@ def run(tier, seed, build):
     res.extra["exhaustive"] = True
     res.extra["exhaustive_cases"] = len(cases) - N_CORPUS
     res.extra["random_cases"] = n_random
-    cases += [random_case(rng) for _ in range(n_random)]
+    cases += [set_channel(random_case(rng), random_channel(rng)) for _ in range(n_random)]
     n_enum = len(cases) - n_random
-    cli_idx = set(rng.sample(range(n_enum, len(cases)), min(n_cli, n_random))) | set(range(N_CORPUS)) | set(rng.sample(range(N_CORPUS, n_enum), 2))
+    cli_idx = set(rng.sample(range(n_enum, len(cases)), min(n_cli, n_random))) | set(rng.sample(range(N_CORPUS, n_enum), 2)) \
+        | {i for i in range(N_CORPUS) if cases[i]["shape"].get("cli", True)}
 
     base = os.path.realpath(tempfile.mkdtemp(prefix="c12_"))
     assert "site-packages" not in base and not base.startswith(("/verif", "/repo"))
-    kept, observations = [], []
+    for d in [Path(base), *Path(base).parents]:
+        # find_project_root() walks up from the cwd: nothing above the generated trees may be a root
+        if any((d / m).exists() for m in ("pyproject.toml", ".git", ".hg", ".svn")):
+            res.internal_errors.append({"what": f"project-root marker in {d}: the TOML channels would read it"})
+            return res
+    kept, observations, futures = [], [], {}
+    # the real-CLI runs overlap with the in-process loop (independent processes on the same files)
+    ex = ThreadPoolExecutor(max_workers=6)
+    import time
+    t0 = time.time()
     try:
         for idx, case in enumerate(cases):
             pr = Project(base, idx, case)
             case["_root"] = str(pr.root)
+            if idx in cli_idx:
+                kept.append((idx, pr))
+                futures[idx] = ex.submit(run_cli, pr)
             try:
                 obs = run_impl(pr)
             except Exception as e:  # harness failure, not rattr's
                 res.internal_errors.append({"what": "run_impl failed", "detail": repr(e)[:300]})
-                pr.cleanup()
                 observations.append(None)
                 continue
+            finally:
+                if idx not in cli_idx:
+                    pr.cleanup()
             observations.append(obs)
-            if idx in cli_idx:
-                kept.append((idx, pr))
-            else:
-                pr.cleanup()
-        with ThreadPoolExecutor(max_workers=8) as ex:
-            cli_out = dict(zip([i for i, _ in kept], ex.map(run_cli, [p for _, p in kept])))
+        t1 = time.time()
+        cli_out = {i: f.result() for i, f in futures.items()}
+        # informational only (never a verdict)
+        res.extra["phase_s"] = {"in_process_loop": round(t1 - t0, 1), "waiting_for_cli_after_loop": round(time.time() - t1, 1),
+                                "cli_runs": len(futures)}
     finally:
+        ex.shutdown(wait=True, cancel_futures=True)
         shutil.rmtree(base, ignore_errors=True)
 
     model = common.Model()
@@ -897,7 +1373,8 @@ def run(tier, seed, build):
     for (i, case, obs), mo in zip(todo, outs):
         res.evaluations += 1
         if any(x["target"] for x in obs["facts"]["target"]):
-            res.nontrivial.add(common.digest({k: case[k] for k in ("level", "patterns", "files", "extra_path")}))
+            res.nontrivial.add(common.digest({k: case.get(k) for k in ("level", "patterns", "files", "extra_path", "links",
+                                                                       "sp_spell", "argv", "aux_files")}))
         res.sample({"level": case["level"], "patterns": case["patterns"], "files": case["files"],
                     "impl_keys": obs.get("keys"), "impl_outcome": obs["outcome"]}, cap=4)
         evaluate(res, case, obs, mo, cli_out.get(i))
@@ -905,6 +1382,9 @@ def run(tier, seed, build):
         "isort.place_module, the site-packages regex and re.fullmatch are trusted classifiers: their verdicts are per-module parameters of the model",
         "[interp] a module is identified by its name (the key of import_irs); 'matching an --exclude-import pattern' = re.fullmatch(pattern, module name)",
         "[interp] parent packages of a followed submodule need not be analysed; star imports are outside the fragment (expand_starred_imports parses the starred module whatever the level)",
+        "[interp] 'analysed exactly once' counts analyses per REAL file (os.path.realpath of what was opened): one file under two module names must be read and analysed once, and both names must be usable (keys of import_irs)",
+        "[interp] the follow level / patterns in effect are what the documented sources say: last -f/--follow-imports on the command line, else follow-imports of the TOML table that applies (-c file if it exists, else the project's pyproject.toml), else 1; exclusion patterns accumulate (TOML then command line)",
+        "argparse's tokeniser (--follow-imports=N, -fN) is outside the Lean CLI model: those channels are judged by the oracle only",
         "[interp] the target file is analysed once as the target and at most once more as an import when an import cycle leads back to it",
         "level-3 runs that reach a built-in / frozen / extension stdlib module crash in read() (C07-K8); counted as outside the fragment",
     ]
@@ -916,8 +1396,8 @@ def replay(path):
     j = json.load(open(path))
     case = j["case"]
     case.setdefault("shape", {})
-    print(json.dumps({k: case[k] for k in ("level", "patterns", "extra_path")}))
-    for rel, src in case["files"].items():
+    print(json.dumps({k: case.get(k) for k in ("level", "patterns", "extra_path", "links", "sp_spell", "channel", "argv")}))
+    for rel, src in list(case["files"].items()) + list(case.get("aux_files", {}).items()):
         print(f"--- {rel}\n{src}")
     base = os.path.realpath(tempfile.mkdtemp(prefix="c12r_"))
     try:
@@ -930,7 +1410,8 @@ def replay(path):
     mo = common.Model().batch([("imports", model_payload(case, obs))])[0]
     res = common.Result(PID)
     evaluate(res, case, obs, mo, cli)
-    print("implementation (in-process):", json.dumps({k: obs.get(k) for k in ("outcome", "keys", "events", "results", "pops", "unique")}))
+    print("implementation (in-process):", json.dumps({k: obs.get(k) for k in ("outcome", "keys", "events", "events_real", "results", "pops", "unique", "impl_level", "impl_patterns")}))
+    print("model (configuration stage):", json.dumps(mo.get("config")) if "__error__" not in mo else None)
     print("implementation (CLI):", json.dumps(cli))
     print("model:", json.dumps({k: mo.get(k) for k in ("outcome", "analysed", "skipped", "pops", "hyps")} if "__error__" not in mo else mo))
     print("spec (independent oracle) reach:", sorted(oracle_reach(case)))
